@@ -252,7 +252,7 @@ VERIF_TARGET(c29_packages, nullptr, 128, 1500,
             }
             shape_name = count_boundary ? "child-with-many-parents" : "child-with-parents";
             std::vector<Spendable> child_ins;
-            const bool dependent_parents = !count_boundary && n >= 2 && s.chance(70);
+            const bool dependent_parents = !count_boundary && n >= 2 && s.chance(110);
             CTransactionRef prev_parent;
             for (unsigned i = 0; i < n; ++i) {
                 std::optional<Spendable> coin;
@@ -315,7 +315,10 @@ VERIF_TARGET(c29_packages, nullptr, 128, 1500,
         // ---- mutation
         const unsigned mut = s.range<unsigned>(0, 11);
         std::string mut_name = "none";
-        if (mut == 6 && pkg.size() >= 2) { // swap two transactions
+        if ((mut == 5 || mut == 6) && shape_name == "child-with-dependent-parents" && pkg.size() >= 3) { // the two dependent parents change places: unsorted, still child-with-parents shaped
+            mut_name = "swap-dependent-parents";
+            std::swap(pkg[0], pkg[1]);
+        } else if (mut == 6 && pkg.size() >= 2) { // swap two transactions
             mut_name = "swap";
             size_t a = s.index(pkg.size()), b = s.index(pkg.size());
             if (s.chance(128) && pkg.size() >= 3) { a = s.index(pkg.size() - 1); b = s.index(pkg.size() - 1); } // among the parents only
